@@ -412,8 +412,45 @@ def split_actions(src):
     return acts
 
 
+def strip_comments(s):
+    """remove // and /* */ comments (nested, as Rust allows), leaving string, raw-string and char literals alone: a comment
+    is not code, so an action body that differs only by one is the same action"""
+    out, i, n = [], 0, len(s)
+    while i < n:
+        c = s[i]
+        if c == '"':
+            j = i + 1
+            while j < n and s[j] != '"':
+                j += 2 if s[j] == "\\" else 1
+            out.append(s[i:j + 1]); i = j + 1
+        elif c == "r" and re.match(r'r#*"', s[i:]) and (i == 0 or not (s[i - 1].isalnum() or s[i - 1] == "_")):
+            h = re.match(r'r(#*)"', s[i:]).group(1)
+            j = s.find('"' + h, i + 2 + len(h))
+            j = n if j < 0 else j + 1 + len(h)
+            out.append(s[i:j]); i = j
+        elif c == "'" and re.match(r"'(\\.[^']*|[^'\\])'", s[i:]):
+            j = i + re.match(r"'(\\.[^']*|[^'\\])'", s[i:]).end()
+            out.append(s[i:j]); i = j
+        elif s.startswith("//", i):
+            j = s.find("\n", i)
+            i = n if j < 0 else j
+        elif s.startswith("/*", i):
+            depth, j = 1, i + 2
+            while j < n and depth:
+                if s.startswith("/*", j):
+                    depth += 1; j += 2
+                elif s.startswith("*/", j):
+                    depth -= 1; j += 2
+                else:
+                    j += 1
+            out.append(" "); i = j
+        else:
+            out.append(c); i += 1
+    return "".join(out)
+
+
 def norm(s):
-    return re.sub(r"\s+", " ", s).strip()
+    return re.sub(r"\s+", " ", strip_comments(s)).strip()
 
 
 # lalrpop's own glue, recognised by (normalised) body text: body -> Coq expression over the bound names
@@ -435,7 +472,13 @@ GLUE = {
 def load_user_actions():
     """normalised body text -> (Coq function, parameter names in the order the Coq function takes them)"""
     import user_actions
-    return user_actions.USER_ACTIONS
+    out = {}
+    for k, v in user_actions.USER_ACTIONS.items():
+        k2 = norm(k)               # the keys are written as the bodies appear in the source, comments included
+        if k2 in out and out[k2] != v:
+            raise TranslateError(f"user action table: two entries for {k2[:80]}")
+        out[k2] = v
+    return out
 
 
 def action_to_coq(n, a, acts, user):
